@@ -250,7 +250,10 @@ class Counter(HashTable):
                The set of integers to count
         """
         t = time.time()
-        keys = np.asanyarray(keys, dtype=self._key_dtype)
+        samples = np.asanyarray(keys)
+        keys = samples.astype(self._key_dtype)
+        if samples.dtype != keys.dtype:
+            keys = keys[keys == samples]  # samples outside the key dtype cannot be keys
         hashes = self._get_hash(keys)
         view = self._keys._shape.view(hashes)
         mask = np.flatnonzero(view.lengths)
